@@ -1,5 +1,56 @@
-from .. import AnalysisBroken
+"""C11 - kdtree results are independent of worker count, chunking and compression."""
+from ._nn import check_encoder, check_extract, check_kd, check_limit, check_pool, check_roles_consistent, run_fga
+
+CLAIMED = True
+LEVEL = "other"
+TECHNIQUE = "interval (lower-bound) analysis of the Pool.map chunk size; ordering/dominance of the parameter-block store; writer/reader slot agreement; who-may-read / who-may-write; worker write sets; pipeline-stage order of the max_returns truncation"
+TEXT = ("Decides that kdtree's workers are pure functions of their task and of a parameter block that is written unconditionally before the pool exists and "
+        "never afterwards, read only by the two workers and written only by _to_triplets, with writer and readers agreeing slot by slot; that results "
+        "are assembled by an order-preserving primitive over enumerate(candidates) with a chunk size whose lower bound is >= 1 for every len(seqs) >= 1 "
+        "and n_cpu >= 2; that compression reaches only the encoder, for which lemma A.2 holds with any character-only map; that max_returns truncation "
+        "is applied to the list sorted ascending by the reported distance, after self-exclusion and after both radius filters (custom path), and via "
+        "extract(limit=max_returns, score_cutoff=max_edits) after self-exclusion (default / Hamming path). Grade B.")
+NOTE = "Trusted: multiprocessing Pool.map order preservation and chunksize >= 1 contract; fork start method (workers inherit the module-level block); rapidfuzz extract keeps the best-scoring candidates."
 
 
 def run(r):
-    raise AnalysisBroken("rule set for C11 not implemented yet (fail-closed stub)")
+    rep = r.rep
+    rep.explanation = "Pool configuration, parameter-block protocol, worker write sets, truncation pipeline and compression path were analysed on the current tree."
+    rep.trust("multiprocessing.Pool.map(f, it, chunksize) preserves input order; chunksize must be None or >= 1 (chunksize 0 yields None results)",
+              "fork start method: workers inherit module globals as they were when the pool was created", "rapidfuzz.process.extract model (libmodels)")
+    check_pool(r, "C11")
+    check_roles_consistent(r, "C11-BLK")
+    check_limit(r, "C11-LIM")
+    check_extract(r, "C11-LIM")
+    check_kd(r, "C11-KD")
+    check_encoder(r, "C11-CMP")
+    run_fga(r, "C11", {"none", "hamming", "callable"}, labels={"kdtree-worker"}, floor=6)
+    rep.floor("C11-ORD", 5)
+    rep.floor("C11-IV", 1)
+    rep.floor("C11-BLK", 3)
+    rep.floor("C11-WHO", 2)
+    rep.floor("C11-PURE", 2)
+    rep.floor("C11-LIM", 8)
+
+
+from ..selftest import V  # noqa: E402
+
+N = "pyrepseq/nn.py"
+VARIANTS = [
+    V("D4-chunksize-zero", N, "chunksize=max(1, int(len(seqs) / n_cpu))", "chunksize=int(len(seqs) / n_cpu)", rule="C11-IV"),
+    V("block-stored-after-pool", N, "    _cal_params = (seqs, max_edits, limit, custom_distance, max_cust_dist)\n    _loop = enumerate(y_indices)\n\n    if n_cpu == 1:\n        result = map(cal, _loop)\n    else:\n        with Pool(n_cpu) as p:\n",
+      "    _loop = enumerate(y_indices)\n\n    if n_cpu == 1:\n        _cal_params = (seqs, max_edits, limit, custom_distance, max_cust_dist)\n        result = map(cal, _loop)\n    else:\n        with Pool(n_cpu) as p:\n            _cal_params = (seqs, max_edits, limit, custom_distance, max_cust_dist)\n", rule="C11-ORD"),
+    V("truncate-before-filter", N, "    ans = sorted(filter(distance_filter, ans), key=lambda x: x[2])\n    return ans if limit is None else ans[0:limit]",
+      "    ans = sorted(ans, key=lambda x: x[2])\n    ans = ans if limit is None else ans[0:limit]\n    return list(filter(distance_filter, ans))", rule="C11-LIM"),
+    V("sort-key-dropped", N, "    ans = sorted(filter(distance_filter, ans), key=lambda x: x[2])", "    ans = sorted(filter(distance_filter, ans))", rule="C11-LIM"),
+    V("sort-descending", N, "    ans = sorted(filter(distance_filter, ans), key=lambda x: x[2])", "    ans = sorted(filter(distance_filter, ans), key=lambda x: x[2], reverse=True)", rule="C11-LIM"),
+    V("worker-appends-to-module-list", N, "    ans = []\n    for _, dist, y_index in result:\n        ans.append((i, choices[y_index], dist))\n    return ans", "    ans = []\n    for _, dist, y_index in result:\n        ans.append((i, choices[y_index], dist))\n    _cal_params[0][i] = seqs[i]\n    return ans", rule="C11-PURE"),
+    V("imap-unordered", N, "result = p.map(cal, _loop, chunksize=max(1, int(len(seqs) / n_cpu)))", "result = list(p.imap_unordered(cal, _loop, chunksize=max(1, int(len(seqs) / n_cpu))))", rule="C11-ORD"),
+    V("reader-slot-swap", N, "    seqs, max_edits, limit, dist, max_cust_dist = _cal_params", "    seqs, limit, max_edits, dist, max_cust_dist = _cal_params", rule="C11"),
+    V("limit-default-5", N, "score_cutoff=max_edits, scorer=scorer, limit=limit", "score_cutoff=max_edits, scorer=scorer", rule="C11-LIM"),
+    V("compression-into-radius", N, '"r": np.sqrt(2) * max_edits', '"r": np.sqrt(2) * max_edits / compression', rule="C11-KD"),
+    V("third-reader", N, "def _flatten_array(nested_array):\n    return list(chain(*nested_array))", "def _flatten_array(nested_array):\n    return list(chain(*nested_array))[: len(_cal_params[0]) ** 2]", rule="C11-WHO"),
+    V("silent-chunksize-none", N, "chunksize=max(1, int(len(seqs) / n_cpu))", "chunksize=None", expect="silent"),
+    V("silent-ceil-division", N, "chunksize=max(1, int(len(seqs) / n_cpu))", "chunksize=-(-len(seqs) // n_cpu)", expect="silent"),
+    V("silent-no-chunksize", N, "result = p.map(cal, _loop, chunksize=max(1, int(len(seqs) / n_cpu)))", "result = p.map(cal, _loop)", expect="silent"),
+]
